@@ -292,6 +292,16 @@ Definition tids_of (s : lstate) : list tid := map t_id (tables s) ++ reserved (f
 Section Toposort.
   Variable dag : nat -> list nat.
 
+  (* `for m in &dag[n] { self.visit(dag, *m)?; }` *)
+  Fixpoint visit_all (v : list nat -> nat -> option (list nat)) (ms : list nat) (order : list nat) : option (list nat) :=
+    match ms with
+    | [] => Some order
+    | m :: ms' => match v order m with
+                  | Some order' => visit_all v ms' order'
+                  | None => None
+                  end
+    end.
+
   Fixpoint visit (fuel : nat) (visiting order : list nat) (n : nat) : option (list nat) :=
     match fuel with
     | O => None
@@ -299,14 +309,7 @@ Section Toposort.
         if existsb (Nat.eqb n) order then Some order            (* node.done *)
         else if existsb (Nat.eqb n) visiting then None          (* node.visiting: cycle *)
         else
-          match (fix go (ms : list nat) (order : list nat) : option (list nat) :=
-                   match ms with
-                   | [] => Some order
-                   | m :: ms' => match visit fuel' (n :: visiting) order m with
-                                 | Some order' => go ms' order'
-                                 | None => None
-                                 end
-                   end) (dag n) order with
+          match visit_all (visit fuel' (n :: visiting)) (dag n) order with
           | Some order' => Some (n :: order')
           | None => None
           end
